@@ -136,10 +136,16 @@ def get_hed_version_path(xml_version, library_name=None, local_hed_directory=Non
         local_hed_directory = HED_CACHE_DIRECTORY
 
     hed_versions = get_hed_versions(local_hed_directory, library_name, check_prerelease)
-    if not hed_versions or not xml_version:
+    if not xml_version:
         return None
-    if xml_version in hed_versions:
+    if hed_versions and xml_version in hed_versions:
         return _create_xml_filename(xml_version, library_name, local_hed_directory, check_prerelease)
+    if local_hed_directory == HED_CACHE_DIRECTORY:
+        # The default cache can lack a bundled version while another process is still populating it, or after
+        # a population was interrupted.  The installed copy is what would have been cached.
+        installed_filename = _create_xml_filename(xml_version, library_name, INSTALLED_CACHE_LOCATION)
+        if os.path.isfile(installed_filename):
+            return installed_filename
 
 
 def cache_local_versions(cache_folder):
